@@ -314,6 +314,22 @@ def outpoints(l):
 def handler(sc, payload):
     out = {}
     b = prepare(sc)
+    if sc.get('prebuild') and sc.get('sign', True) and sc['required_signers'] is not None:
+        # the builder has been used before: a first build_and_sign with MORE required signers (two co-signers who then
+        # dropped out), then required_signers is set to the scenario's list; everything below is the second use
+        saved_outputs = list(b.outputs)
+        try:
+            extra = [VerificationKeyHash(bytes([0xC0 + k]) * 28) for k in range(2)]
+            b.required_signers = [VerificationKeyHash(H(h)) for h in sc['required_signers']] + extra
+            kw0 = {}
+            if sc.get('collateral_change') is not None:
+                kw0['collateral_change_address'] = Address(cred_obj(sc['collateral_change']), network=NET)
+            b.build_and_sign([mk_key(sc['keys'][i]) for i in sc['supplied']],
+                             change_address=Address(cred_obj(sc['change']), network=NET), force_skeys=sc['force'], **kw0)
+        except Exception:
+            pass
+        b.outputs[:] = saved_outputs          # build() appended its change outputs to the builder's list: the caller takes them out
+        b.required_signers = [VerificationKeyHash(H(h)) for h in sc['required_signers']]
     pp = b.context.protocol_param
     rs = pp.min_fee_reference_scripts
     assert float(rs['base']).is_integer() and float(rs['range']).is_integer()
